@@ -148,7 +148,9 @@ def run_case(case) -> Result:
 
                 def capture():
                     # everything that exists when the injection starts belongs to the connection being abandoned
-                    snap["eps"] = list(W.transports)
+                    # (an endpoint whose creation is still in flight has not been given to the library yet: it belongs to
+                    # the connection attempt that is running underneath the injection, judged below with that attempt)
+                    snap["eps"] = [t for t in W.transports if t.handed_over or t.closed]
                     snap["tasks"] = [t for t in man._tasks if t.get_name().startswith(CONN)]
                     snap["spa"] = man._spa
                     snap["t"] = W.clock.t
